@@ -193,6 +193,11 @@ func (x *X) specEval(env *SpecEnv, e *SpecExpr) Value {
 		}
 		_ = ranges
 		body := x.specBool(&ne, e.R)
+		if e.Kind == "forall" {
+			if nb, np, ok := reindexQuant(vars, body); ok {
+				return boolVal(Quant("forall", vars, nb, np))
+			}
+		}
 		var pats []*Term
 		collectPatterns(body, vars, &pats, map[string]bool{})
 		var usable []*Term
@@ -460,6 +465,24 @@ func (x *X) specCall(env *SpecEnv, se *SpecExpr, call *ast.CallExpr) Value {
 		v := arg(0)
 		_, off, _, _ := sliceParts(v)
 		return scalar(tUint64, off)
+	case "packbytes":
+		// packbytes(b, p, N): the N bytes of b starting at index p as a [N]byte value
+		b, p := arg(0), arg(1)
+		nv := arg(2)
+		if nv.K == nil {
+			fail("packbytes: length must be a constant")
+		}
+		n64, _ := constant.Int64Val(constant.ToInt(nv.K))
+		var acc *Term
+		for i := int64(0); i < n64; i++ {
+			by := x.indexValue(env.st, b, scalar(tUint64, bvbin("bvadd", x.indexTerm(p), BVInt(i, 64))), nil).S()
+			if acc == nil {
+				acc = by
+			} else {
+				acc = Concat(acc, by)
+			}
+		}
+		return scalar(types.NewArray(tUint8, n64), acc)
 	case "ref":
 		v := arg(0)
 		return scalar(tUint64, v.C[0])
